@@ -60,7 +60,7 @@ type c08Req struct {
 type c08Op struct {
 	Space string `json:"space"` // db | redis | counter | mongo
 	Key   string `json:"key"`
-	Kind  string `json:"kind"` // write | update | read | delete | incr
+	Kind  string `json:"kind"` // write | update | tag | read | delete | incr
 	Val   string `json:"val,omitempty"`
 }
 
@@ -75,8 +75,8 @@ func c08JSON(m, p string, body interface{}) HReq {
 }
 
 func c08Pure(rng *rand.Rand, i int, compiled bool) c08Req {
-	k := rng.Intn(7)
-	if compiled && k <= 3 {
+	k := rng.Intn(10)
+	if compiled {
 		k = 4 + rng.Intn(3) // the compiled module has no user functions and no parseInt
 	}
 	loopAcc := func(n int) int {
@@ -103,6 +103,17 @@ func c08Pure(rng *rand.Rand, i int, compiled bool) c08Req {
 		n := 200 + rng.Intn(2500)
 		tok := fmt.Sprintf("b%d", i)
 		return c08Req{Req: c08JSON("POST", "/loopb/"+tok, map[string]interface{}{"n": n}), Expect: map[string]interface{}{"kind": "loopb", "tok": tok, "n": float64(n), "acc": float64(loopAcc(n))}}
+	case 7:
+		n := rng.Intn(100000)
+		return c08Req{Req: HReq{M: "GET", P: fmt.Sprintf("/hof/%d", n)}, Expect: map[string]interface{}{"kind": "hof",
+			"m": []interface{}{float64(2 * n), float64(2*n + 2), float64(2*n + 4)}, "s": float64(6*n + 6)}}
+	case 8:
+		n := rng.Intn(100000)
+		return c08Req{Req: HReq{M: "GET", P: fmt.Sprintf("/async/%d", n)}, Expect: map[string]interface{}{"kind": "async", "a": float64(300 * n), "b": float64(n%50 + 7)}}
+	case 9:
+		n := rng.Intn(100000)
+		m := []string{"zero", "one", "two", "three"}[n%4]
+		return c08Req{Req: HReq{M: "GET", P: fmt.Sprintf("/matchsw/%d", n)}, Expect: map[string]interface{}{"kind": "matchsw", "k": float64(n), "out": []string{"a", "b", "c"}[n%3] + m}}
 	case 5:
 		n := 200 + rng.Intn(2500)
 		tok := fmt.Sprintf("q%d", i)
@@ -138,8 +149,10 @@ func c08ProviderReq(rng *rand.Rand, i int, created map[string]bool) c08Req {
 		switch rng.Intn(10) {
 		case 0:
 			return c08Req{Req: HReq{M: "DELETE", P: "/db/delete/" + key}, Op: &c08Op{"db", key, "delete", ""}}
-		case 1, 2, 3, 4:
+		case 1, 2, 3:
 			return c08Req{Req: c08JSON("POST", "/db/update/"+key, map[string]interface{}{"val": val}), Op: &c08Op{"db", key, "update", val}}
+		case 4, 5:
+			return c08Req{Req: c08JSON("POST", "/db/tag/"+key, map[string]interface{}{"tag": "t" + val}), Op: &c08Op{"db", key, "tag", "t" + val}}
 		}
 		return c08Req{Req: HReq{M: "GET", P: "/db/get/" + key}, Op: &c08Op{"db", key, "read", ""}}
 	case 3, 4: // redis register
@@ -166,8 +179,10 @@ func c08ProviderReq(rng *rand.Rand, i int, created map[string]bool) c08Req {
 	switch rng.Intn(10) {
 	case 0:
 		return c08Req{Req: HReq{M: "DELETE", P: "/mongo/delete/" + key}, Op: &c08Op{"mongo", key, "delete", ""}}
-	case 1, 2, 3, 4:
+	case 1, 2, 3:
 		return c08Req{Req: c08JSON("POST", "/mongo/update/"+key, map[string]interface{}{"val": val}), Op: &c08Op{"mongo", key, "update", val}}
+	case 4, 5:
+		return c08Req{Req: c08JSON("POST", "/mongo/tag/"+key, map[string]interface{}{"tag": "t" + val}), Op: &c08Op{"mongo", key, "tag", "t" + val}}
 	}
 	return c08Req{Req: HReq{M: "GET", P: "/mongo/find/" + key}, Op: &c08Op{"mongo", key, "read", ""}}
 }
@@ -175,12 +190,14 @@ func c08ProviderReq(rng *rand.Rand, i int, created map[string]bool) c08Req {
 type c08State struct {
 	Present bool
 	Val     string
+	Tag     string // a second field, written by its own operation: an update of one field must not undo the other
 }
 
 type c08Out struct {
 	OK    bool   // update / delete succeeded
 	Found bool   // read
 	Val   string // read value / incr result
+	Tag   string
 }
 
 var c08Model = porcupine.Model{
@@ -191,13 +208,21 @@ var c08Model = porcupine.Model{
 		out := output.(c08Out)
 		switch op.Kind {
 		case "write":
-			return true, c08State{true, op.Val}
+			return true, c08State{Present: true, Val: op.Val}
 		case "update":
 			if out.OK != st.Present {
 				return false, st
 			}
 			if st.Present {
-				return true, c08State{true, op.Val}
+				return true, c08State{true, op.Val, st.Tag}
+			}
+			return true, st
+		case "tag":
+			if out.OK != st.Present {
+				return false, st
+			}
+			if st.Present {
+				return true, c08State{true, st.Val, op.Val}
 			}
 			return true, st
 		case "delete":
@@ -209,14 +234,14 @@ var c08Model = porcupine.Model{
 			if out.Found != st.Present {
 				return false, st
 			}
-			return !st.Present || out.Val == st.Val, st
+			return !st.Present || (out.Val == st.Val && out.Tag == st.Tag), st
 		case "incr":
 			n := 0
 			if st.Present {
 				n, _ = strconv.Atoi(st.Val)
 			}
 			n++
-			return out.Val == strconv.Itoa(n), c08State{true, strconv.Itoa(n)}
+			return out.Val == strconv.Itoa(n), c08State{Present: true, Val: strconv.Itoa(n)}
 		}
 		return false, st
 	},
@@ -247,7 +272,7 @@ func c08ParseOut(op *c08Op, body string) (out c08Out, torn string, err error) {
 	switch op.Kind {
 	case "write":
 		out.OK = true
-	case "update":
+	case "update", "tag":
 		switch op.Space {
 		case "db":
 			out.OK = m["rec"] != nil // Update returns the record, or nothing when the id is unknown
@@ -277,6 +302,7 @@ func c08ParseOut(op *c08Op, body string) (out c08Out, torn string, err error) {
 			if out.Found {
 				rec, _ := m[recKey].(map[string]interface{})
 				out.Val = str(rec["val"])
+				out.Tag = str(rec["tag"])
 				for _, f := range mirrors {
 					if str(rec[f]) != out.Val {
 						torn = fmt.Sprintf("record %v: val=%q but %s=%q", op.Key, out.Val, f, str(rec[f]))
@@ -320,7 +346,7 @@ func checkC08(tier string) {
 	concs := []int{2, 8, 32, 64}
 
 	// (1) directed provider-free module
-	nDir := r.Pick(12, 96)
+	nDir := r.Pick(32, 160)
 	for j := 0; j < nDir; j++ {
 		compiled := j%4 == 3
 		m := &meta{kind: "directed", conc: concs[j%len(concs)], interp: !compiled, src: c08Directed}
@@ -340,7 +366,7 @@ func checkC08(tier string) {
 		id++
 	}
 	// (3) providers
-	nProv := r.Pick(16, 128)
+	nProv := r.Pick(40, 240)
 	for j := 0; j < nProv; j++ {
 		m := &meta{kind: "provider", conc: []int{4, 16, 32, 64}[j%4], interp: true, src: c08Directed}
 		created := map[string]bool{}
@@ -372,7 +398,7 @@ func checkC08(tier string) {
 		id++
 	}
 	// (2) generated mixes: a sequential twin and a concurrent run of the same module
-	nGen := r.Pick(60, 600)
+	nGen := r.Pick(160, 1200)
 	for j := 0; j < nGen; j++ {
 		interp := j%2 == 0
 		f := c02Core()
@@ -668,6 +694,6 @@ func checkC08(tier string) {
 	r.Rule = "one server (CLI wiring, one interpreter, one set of mock providers) per job, N goroutines issuing a fixed request list (N in {2,8,32,64}); (1) directed provider-free routes (recursion depth 40-110, generic functions with per-request type arguments, loops of 200-2700 iterations over locals, body/path/query echo with unique tokens) against expectations computed in Go; (2) generated 8-route modules (G-prog; interpreter with user functions, compiled core) — each request's answer under concurrency vs its answer alone on a fresh server; (3) provider operations (mock DB create/get/update/delete, Redis set/get/del/incr, MongoDB insert/find/update/delete) with a unique value per request, per-key porcupine check of the client-side call/return history + torn-record check; (4) the same jobs under the Go race detector. Non-trivial = issued with at least 2-way concurrency; distinct = by job kind, build, concurrency and request"
 	r.Assume("sequential equivalence is asserted only for provider-free routes; provider routes are judged by linearizability (any legal order) and by 'no operation fails'")
 	r.Assume("the race detector only reports races in code the workload reached; reports whose two stacks are not both in repository code are discarded")
-	r.Floor(r.Pick(2000, 20000))
+	r.Floor(r.Pick(5000, 40000))
 	r.Finish()
 }
